@@ -20,6 +20,7 @@ def run(prog: Program, rep: Report, tier: str) -> None:
     rep.rule("R7.1", "exactly one hand-off per datagram: every path of datagram_received calls self._on_datagram exactly once with the received bytes, synchronously (no task/executor/call_soon), and the builder makes at most one callback per datagram", 3)
     rep.rule("R7.2", "no memory between datagrams: nothing reachable from datagram_received stores to the protocol, the bridge, a module or any object that outlives the call (only fields of freshly built objects are written)", 2)
     rep.rule("R7.3", "receiving never stops the listener: no transport close/abort and no bridge stop is reachable from datagram_received/error_received/connection_lost; the only transport close in the package is SwitcherBridge.stop; no try/except around the hand-off turns an error into a shutdown", 3)
+    rep.rule("R7.5", "every valid broadcast is delivered: for each device type with a not-ON normalisation, the not-ON paths of the builder reach the callback without examining the bytes of the fields that are reported as zero in that state (junk there is still a valid broadcast)", 6)
     rep.rule("R7.4", "one protocol object and one transport per port, each bound to partial(_parse_device_from_datagram, <the user's callback>)", 1)
     rep.explanation = (
         "Decides four structural necessary conditions (one synchronous hand-off per datagram; no state carried between datagrams; nothing on the receive path closes a transport; "
@@ -148,4 +149,24 @@ def run(prog: Program, rep: Report, tier: str) -> None:
         if len(set(protos)) != len(protos):
             bad4 = "one protocol object is shared by several ports"
     rep.check(bad4 is None and n_it > 0, "R7.4", "protocol per port bound to the user callback", swhere, bad4 or "no endpoint creation explored", key="R7.4|protocol")
+    # ---- R7.5 (shares its analysis with C05 R5.7)
+    from . import c05
+    from ..model import EnumRef
+    spec = c05.load_spec()
+    dt = prog.cls("aioswitcher.device:DeviceType")
+    assert dt.enum is not None
+    on = ("enum", EnumRef(prog.cls("aioswitcher.device:DeviceState").key, "ON"))
+    for m in dt.enum.members:
+        cat = dt.enum.attr(m, "category").member
+        if cat not in ("WATER_HEATER", "POWER_PLUG"):
+            continue
+        want_cls = [k for k, d in spec["devices"].items() if d["category"] == cat]
+        I5, outs5 = c05.parse_outcomes_for(prog, m)
+        funcs |= set(I5.functions_visited)
+        delivered = [o for o in outs5 if o.kind == "return" and B.callbacks(o)]
+        if not delivered:
+            rep.bad("R7.5", m, pwhere, f"no path of the builder delivers a device for {m}", key=f"R7.5|{m}|nodevice")
+            continue
+        bad5 = c05.ignored_field_dependence(prog, spec, m, cat, want_cls[0], outs5, on)
+        rep.check(bad5 is None, "R7.5", m, pwhere, bad5 or "", key=f"R7.5|{want_cls[0]}")
     rep.analysed["functions"] = sorted(funcs)
